@@ -517,3 +517,61 @@ Proof.
   intros [|]; eexists; eexists; (split; [vm_compute; reflexivity|]);
     repeat split; try reflexivity; repeat constructor; try discriminate.
 Qed.
+
+(* ====================================================================== 7. the stream *)
+(* a message as the strict reader delimits it: request line, field lines, the octets of its body encoding *)
+Record smsg := { sm_line1 : bytes; sm_lines : list bytes; sm_body_enc : bytes }.
+Definition smsg_bytes (m : smsg) : bytes := sm_line1 m ++ crlf ++ enc_lines (sm_lines m) ++ crlf ++ sm_body_enc m.
+Definition smsg_ok (m : smsg) : Prop := line_ok (sm_line1 m) /\ Forall line_ok (sm_lines m).
+Definition stream_of (ms : list smsg) : bytes := concat (map smsg_bytes ms).
+
+(* Squid's framing decision for the i-th forwarded message is the strict reader's for its i-th message
+   (HTTP/1.x, a body of declared length, that length) *)
+Fixpoint agree (ms : list smsg) (evs : list event) : Prop :=
+  match ms, evs with
+  | m :: ms', EForward _ f :: evs' =>
+      fw_major f = 1 /\ fw_chunked f = false /\ lenN (sm_body_enc m) = Z.to_N (fw_clen f) /\ agree ms' evs'
+  | _, _ => True
+  end.
+
+(* the i-th forwarded message occupies exactly the extent of the strict reader's i-th message and carries its body *)
+Fixpoint aligned (off : N) (ms : list smsg) (evs : list event) : Prop :=
+  match ms, evs with
+  | m :: ms', EForward st f :: evs' =>
+      st = off /\ fw_used f = lenN (smsg_bytes m) /\ fw_body f = sm_body_enc m /\
+      aligned (off + lenN (smsg_bytes m)) ms' evs'
+  | _, _ => True
+  end.
+
+Lemma smsg_split m T : smsg_bytes m ++ T =
+  sm_line1 m ++ crlf ++ enc_lines (sm_lines m) ++ crlf ++ sm_body_enc m ++ T.
+Proof. unfold smsg_bytes. rewrite <- !app_assoc. reflexivity. Qed.
+
+Lemma fits_suffix a b : fits (a ++ b) -> fits b.
+Proof. unfold fits. rewrite lenN_app. lia. Qed.
+
+Theorem stream_aligned : forall ms fuel cf off tail,
+  Forall smsg_ok ms -> fits (stream_of ms ++ tail) ->
+  agree ms (run_conn fuel cf off (stream_of ms ++ tail)) ->
+  aligned off ms (run_conn fuel cf off (stream_of ms ++ tail)).
+Proof.
+  induction ms as [|m ms IH]; intros fuel cf off tail Hok Hf Hag; [exact I|].
+  inversion Hok as [|? ? [Hl1 Hls] Hok']; subst.
+  unfold stream_of in *. cbn [map concat] in *. fold (stream_of ms) in *.
+  rewrite <- app_assoc in *.
+  destruct fuel as [|k]; [exact I|].
+  cbn [run_conn] in *.
+  destruct (smsg_bytes m ++ stream_of ms ++ tail) as [|b0 l] eqn:Eb; [exact I|].
+  destruct (process_one cf (b0 :: l)) as [ |c| |f persist rest|f| | ] eqn:PO; try exact I.
+  cbn [agree] in Hag. destruct Hag as (Hmaj & Hch & Hlen & Hag').
+  rewrite <- Eb in PO, Hf. rewrite smsg_split in PO, Hf.
+  destruct (message_extent cf (sm_line1 m) (sm_lines m) (sm_body_enc m) (stream_of ms ++ tail) f persist rest
+              Hl1 Hls Hf PO Hmaj (or_introl (conj Hch Hlen))) as (Hrest & _ & Hused & Hbody & _).
+  cbn [aligned]. split; [reflexivity|].
+  assert (Hu : fw_used f = lenN (smsg_bytes m)).
+  { rewrite Hused. unfold smsg_bytes. rewrite <- !app_assoc. reflexivity. }
+  split; [exact Hu|]. split; [apply Hbody; exact Hch|].
+  destruct persist; [|destruct ms; exact I].
+  subst rest. rewrite Hu in *. apply IH; [exact Hok'| |exact Hag'].
+  rewrite <- smsg_split in Hf. apply fits_suffix in Hf. exact Hf.
+Qed.
